@@ -16,7 +16,7 @@ def rfc1123(epoch: int) -> str:
 
 
 def parse_rfc1123(s: str) -> int:
-    m = re.match(r"^\w{3}, (\d{2}) (\w{3}) (\d{4}) (\d{2}):(\d{2}):(\d{2}) GMT$", s)
+    m = re.match(r"^\w{3},\s+(\d{1,2})\s+(\w{3})\s+(\d{4})\s+(\d{1,2}):(\d{2}):(\d{2})\s+GMT$", s, re.I)
     if not m:
         raise ValueError(s)
     d, mon, y, hh, mm, ss = m.groups()
